@@ -351,6 +351,14 @@ func (rc *refCat) propNode(key string, v Val) Unordered {
 	case "typed":
 		n.Set("tokenType", "number").Set("type", v.Ref).Set("scalarValue", fmt.Sprint(v.Int))
 		rules = append(rules, ruleRef("type", v.Ref))
+	case "emptyarr":
+		n.Set("tokenType", "array").Set("type", "array").Set("children", []any{})
+	case "emptyobj":
+		n.Set("tokenType", "object").Set("type", "object").Set("children", []any{})
+	case "orrule":
+		n.Set("tokenType", "number").Set("type", "mixed").Set("scalarValue", fmt.Sprint(v.Int))
+		rules = append(rules, U("key", "or", "tokenType", "array", "children", []any{
+			U("tokenType", "string", "scalarValue", v.Str), U("tokenType", "reference", "scalarValue", v.Ref)}))
 	case "obj":
 		n.Set("tokenType", "object").Set("type", "object").Set("children", rc.objChildren(v.Obj))
 		rules = append(rules, allOfRules(v.Obj)...)
@@ -398,7 +406,7 @@ func usedOfObj(o *Obj, add func(string)) {
 			add(p.Key)
 		}
 		switch p.V.Kind {
-		case "ref", "arrref", "typed":
+		case "ref", "arrref", "typed", "orrule":
 			add(p.V.Ref)
 		case "or":
 			add(p.V.Ref)
